@@ -1,6 +1,7 @@
 package main
 
 import (
+	"bytes"
 	"crypto/aes"
 	"crypto/cipher"
 	"crypto/hmac"
@@ -78,10 +79,37 @@ func forgeECIES(r *rng, recipient pt, plain, rawBody []byte) []byte {
 	return hm.Sum(out)
 }
 
+// forgeECIESFrom: a well-formed message from an independent sender whose ephemeral PUBLIC key is the given point
+// (the recipient's private key d is known to the generator, so the shared secret is d*E)
+func forgeECIESFrom(r *rng, d *big.Int, E pt, msg []byte) []byte {
+	sx, _ := bec.S256().ScalarMult(E.x, E.y, d.Bytes())
+	dk := sha512.Sum512(pad32(sx.Bytes()))
+	keyE, keyM := dk[:32], dk[32:]
+	iv := r.bytes(16)
+	out := append([]byte{}, iv...)
+	out = append(out, 0x02, 0xca, 0x00, 0x20)
+	out = append(out, pad32(E.x.Bytes())...)
+	out = append(out, 0x00, 0x20)
+	out = append(out, pad32(E.y.Bytes())...)
+	pad := 16 - len(msg)%16
+	plain := append(append([]byte{}, msg...), bytes.Repeat([]byte{byte(pad)}, pad)...)
+	blk, _ := aes.NewCipher(keyE)
+	body := make([]byte, len(plain))
+	cipher.NewCBCEncrypter(blk, iv).CryptBlocks(body, plain)
+	out = append(out, body...)
+	hm := hmac.New(sha256.New, keyM)
+	hm.Write(out)
+	return hm.Sum(out)
+}
+
 // forged ciphertexts with a valid MAC: empty body, bodies of any length, every interesting last padding byte
 func emitForgedECIES(e *emitter, r *rng, d *big.Int) {
 	pub := mulG(d)
 	dec := func(class string, ct []byte) { e.emit(class, "ecies.dec "+nhx(d)+" "+hx(ct)) }
+	// senders whose ephemeral key is a point with rare coordinates (see rarePoints): valid messages, must decrypt
+	for _, E := range rarePoints(r, 1) {
+		dec("dec.rare-ephemeral", forgeECIESFrom(r, d, E, r.bytes(1+r.intn(40))))
+	}
 	dec("dec.forged-empty-body", forgeECIES(r, pub, nil, []byte{}))
 	for _, l := range []int{1, 15, 16, 17, 31, 32, 33} {
 		dec("dec.forged-rawbody", forgeECIES(r, pub, nil, r.bytes(l)))
@@ -515,6 +543,31 @@ func genC20(e *emitter, r *rng, thorough bool) {
 		nc = 40
 	}
 	genC20cons(e, r, nc)
+	// envelopes built directly (not through JSON) whose payload is not valid UTF-8, with backslashes next to it:
+	// the canonical bytes are the payload BYTES without 0x5c, whatever their encoding
+	{
+		d := big.NewInt(424242)
+		priv := privOf(d)
+		pkHex := hex.EncodeToString(priv.PubKey().SerialiseCompressed())
+		for _, pl := range []string{"{\"a\":\"x\xffy\\\\z\"}", "\\\xff\\", "caf\xe9\\n", "\xef\xbf\xbd\\\xff", "\xed\xa0\x80\\", "\xf0\x9f\\\x98\x80", "\xc0\x80\\"} {
+			for _, mime := range []string{"application/json", "text/plain"} {
+				signed := []byte(pl)
+				if mime == "application/json" {
+					signed = []byte(strings.Replace(pl, `\`, "", -1))
+				}
+				sig, err := priv.Sign(crypto.Sha256(signed))
+				if err != nil {
+					continue
+				}
+				e.emit("valid.illformed-utf8", fmt.Sprintf("env.valid %s %s %s %s", hx([]byte(pl)), hx([]byte(hex.EncodeToString(sig.Serialise()))), hx([]byte(pkHex)), hx([]byte(mime))))
+				// the same signature must NOT validate the payload with the ill-formed bytes replaced by U+FFFD
+				repl := string([]rune(pl))
+				if repl != pl {
+					e.emit("alter.illformed-to-fffd", fmt.Sprintf("env.valid %s %s %s %s", hx([]byte(repl)), hx([]byte(hex.EncodeToString(sig.Serialise()))), hx([]byte(pkHex)), hx([]byte(mime))))
+				}
+			}
+		}
+	}
 	// IsValid decision table
 	mimes := []string{"application/json", "base64", "text/plain", "", "application/json; charset=utf-8", "application/jsonl", "Application/JSON", "application/json ", "base64 ", "BASE64"}
 	nv := 6
@@ -705,6 +758,11 @@ func genC15(e *emitter, r *rng, thorough bool) {
 			}
 		}
 		return x
+	}
+	// the structured scalar pool through the entry points that take a scalar of any length
+	for _, k := range scalarBytesPool(r, 2) {
+		e.emit("privbytes.pool", "privbytes "+hx(k))
+		e.emit("sbmul.pool", "curve.sbmul "+hx(k))
 	}
 	// every short payload length WITH a checksum that is right for it (the empty payload included): decoders that
 	// index into the payload after the checksum test must still answer with an error, never panic
